@@ -343,7 +343,7 @@ def run(ctx):
     res = tlc.run_tlc(wd, "MC_MultiMap", dump=True)
     ctx.add_tlc("MultiMap", res, K)
     if res.violated:
-        raise common.MachineryError("MultiMap.tla violates %s:\n%s" % (res.violated, res.stdout[-1500:]))
+        raise common.MachineryError("MultiMap.tla: " + tlc.describe(res))
     tlc.check_coverage(res, ACTIONS)
     g = graph.Graph.load(res.dot)
     if len(g) != res.distinct:
